@@ -117,7 +117,7 @@ func checkC13(p *load.Program, r *kit.Report) {
 	r.Rule("NO-SINK-PATH", "from the handlers installed by the constructor no call path reaches HeaderRepository.ProcessHeader, PeerRepository.Add/UpdateScore/UpdateTime or TxManager.AddTx/AddTxID except through a call dominated by the IsReady() true edge; dynamic dispatch through the handler table or the headerHandler field is resolved to every function that can be stored there", 7)
 	r.Rule("GUARD-DOM", "accept() is called only behind VerifyHeader()==nil and HandshakeIsComplete(); nextNode returns, and SendTx uses, only a node whose own IsReady() (and !IsStopped()) was tested in the same iteration; a verify-only node stops before sending any request", 4)
 	r.Rule("LOCKSET", "the handler table is read and written only under the node mutex", 8)
-	r.Rule("HANDSHAKE-BOTH", "sendVerifyInitiation (handshake complete) is called only where both a version and a verack message were received: in the arm of one type and behind a flag that only the other arm sets; no function other than handshake() calls it or sets handshakeIsComplete", 3)
+	r.Rule("HANDSHAKE-BOTH", "sendVerifyInitiation (handshake complete) is called only where both a version and a verack message were received: in the arm of one type and behind a flag that only the other arm sets; no function other than handshake() calls it or sets handshakeIsComplete", 2)
 	checkHandshakeBoth(p, r)
 	r.Rule("NO-IO-UNDER-LOCK", "nothing that can block on the peer or on another goroutine runs while connectionLock is held (Stop takes that lock to close the connection, e.g. to disconnect a verify-only node)", 1)
 	checkNoIOUnderConnectionLock(p, r, "NO-IO-UNDER-LOCK")
